@@ -97,7 +97,7 @@ def specNamed (s : Schema) (x y : Name) : Bool :=
 /-- the type table is keyed by the names of the definitions (loaded schemas: `Closed.keys`) -/
 def KeysOK (s : Schema) : Prop := ∀ n t, s.type? n = some t → t.name = n
 
-theorem isLeafType_eq (t : Definition) : isLeafType t = Spec.isLeaf t := by
+theorem isLeafType_eq_isLeaf (t : Definition) : isLeafType t = Spec.isLeaf t := by
   unfold isLeafType Spec.isLeaf
   exact Bool.or_comm _ _
 
@@ -118,7 +118,7 @@ theorem doTypesConflict_eq (s : Schema) (hk : KeysOK s) : ∀ (t1 t2 : GType),
       cases h2 : s.type? n2 with
       | none => cases nn1 <;> cases nn2 <;> simp
       | some t2 =>
-        simp only [isLeafType_eq, hk n1 t1 h1, hk n2 t2 h2]
+        simp only [isLeafType_eq_isLeaf, hk n1 t1 h1, hk n2 t2 h2]
         cases nn1 <;> cases nn2 <;> cases (Spec.isLeaf t1 || Spec.isLeaf t2) <;> simp [bne]
 
 end Gql.Validate
